@@ -542,12 +542,23 @@ def spatial_gradient_items(g, op):
     def one(method, lean):
         fn = get_def(op, f'SpatialGradient2D.{method}')
         arg = fn.args.args[1].arg
-        end = find_assign(fn, 'end')
-        if not (isinstance(end, ast.Subscript) and ast.unparse(end.value) == f'{arg}.shape'
-                and isinstance(end.slice, ast.Constant) and end.slice.value in (0, 1)):
-            raise Untranslatable(f'end = {ast.unparse(end)}')
+        # the extent variable: whatever local is assigned `<arg>.shape[k]` (its name does not matter)
+        ext = [(st.targets[0].id, st.value) for st in fn.body
+               if isinstance(st, ast.Assign) and len(st.targets) == 1 and isinstance(st.targets[0], ast.Name)
+               and isinstance(st.value, ast.Subscript) and ast.unparse(st.value.value) == f'{arg}.shape'
+               and isinstance(st.value.slice, ast.Constant) and st.value.slice.value in (0, 1)]
+        if len(ext) != 1:
+            raise Untranslatable('no unique extent variable = <arg>.shape[k]')
+        endname, end = ext[0]
         end_axis = end.slice.value
-        tr = Tr({'end': 'e'})
+        # the output variable: whatever local is assigned np.zeros_like(<arg>)
+        outs = [st.targets[0].id for st in fn.body
+                if isinstance(st, ast.Assign) and len(st.targets) == 1 and isinstance(st.targets[0], ast.Name)
+                and ast.unparse(st.value) == f'np.zeros_like({arg})']
+        if len(outs) != 1:
+            raise Untranslatable('no unique zero-initialised output array')
+        outname = outs[0]
+        tr = Tr({endname: 'e'})
         slices = {}
         upds = []
         axes = set()
@@ -589,16 +600,14 @@ def spatial_gradient_items(g, op):
             if isinstance(st, ast.Assert):
                 continue
             if isinstance(st, ast.Return):
-                if ast.unparse(st.value) != 'out':
-                    raise Untranslatable('does not return out')
+                if ast.unparse(st.value) != outname:
+                    raise Untranslatable('does not return the output array')
                 continue
             if isinstance(st, ast.Assign) and isinstance(st.targets[0], ast.Name):
                 nm = st.targets[0].id
-                if nm == 'end':
+                if nm == endname:
                     continue
-                if nm == 'out':
-                    if ast.unparse(st.value) != f'np.zeros_like({arg})':
-                        raise Untranslatable('out is not zero-initialised')
+                if nm == outname:
                     zero_init = True
                     continue
                 if isinstance(st.value, ast.Call) and ast.unparse(st.value.func) == 'slice' and len(st.value.args) == 2:
@@ -606,7 +615,7 @@ def spatial_gradient_items(g, op):
                     continue
                 raise Untranslatable(f'statement {ast.unparse(st)}')
             tgt = st.targets[0] if isinstance(st, ast.Assign) else st.target if isinstance(st, ast.AugAssign) else None
-            if tgt is not None and isinstance(tgt, ast.Subscript) and ast.unparse(tgt.value) == 'out':
+            if tgt is not None and isinstance(tgt, ast.Subscript) and ast.unparse(tgt.value) == outname:
                 ax, lo, hi = sl(tgt.slice)
                 axes.add(ax)
                 opc = 0 if isinstance(st, ast.Assign) else 1 if isinstance(st.op, ast.Add) else -1 if isinstance(st.op, ast.Sub) else None
@@ -716,7 +725,8 @@ class VecTr:
             f = ast.unparse(e.func)
             if f in self.funcs:
                 return self.funcs[f]([self.ev(a) for a in e.args])
-            if isinstance(e.func, ast.Attribute) and e.func.attr in ('sum', 'mean') and not e.args and not e.keywords:
+            if isinstance(e.func, ast.Attribute) and e.func.attr in ('sum', 'mean') and not e.args \
+                    and all(k.arg == 'axis' and ast.unparse(k.value) in ('-1', '1') for k in e.keywords):
                 v = self.ev(e.func.value)
                 if v[0] != 'v':
                     raise Untranslatable(f'{e.func.attr} of a scalar: {key}')
@@ -742,6 +752,9 @@ class VecTr:
             if isinstance(st, ast.Assign) and len(st.targets) == 1 and isinstance(st.targets[0], ast.Name):
                 self.bind_name(st.targets[0].id, self.ev(st.value))
                 continue
+            if isinstance(st, ast.Assign) and len(st.targets) == 1 and isinstance(st.targets[0], ast.Attribute) \
+                    and isinstance(st.value, ast.Attribute) and st.value.attr == 'shape':
+                continue                    # shape bookkeeping on self (e.g. self.tmpshape = tmp.shape)
             if isinstance(st, ast.AugAssign) and isinstance(st.target, ast.Name):
                 self.bind_name(st.target.id, self.ev(ast.BinOp(left=ast.Name(id=st.target.id, ctx=ast.Load()),
                                                                 op=st.op, right=st.value)))
@@ -763,6 +776,17 @@ def _vec(v):
     return f'(fun i => {v[1]})'
 
 
+def _always_returns_(stmts):
+    if not stmts:
+        return False
+    last = stmts[-1]
+    if isinstance(last, ast.Return):
+        return True
+    if isinstance(last, ast.If):
+        return _always_returns_(last.body) and _always_returns_(last.orelse)
+    return False
+
+
 def _masked_branch_facts(fn, compressed, scattered):
     """the `if mask is not None:` blocks only compress the inputs (`X = X[mask]`) and scatter the gradient into zeros
     (`G2 = zeros(...); G2[mask] = G; G = G2`, or `G = zeros(..); G[mask] = expr`).
@@ -770,9 +794,28 @@ def _masked_branch_facts(fn, compressed, scattered):
     seen_compress = set()
     scatter = False
     unknown = False
-    for n in ast.walk(fn):
-        if isinstance(n, ast.If) and ast.unparse(n.test) == 'mask is not None':
-            for st in n.body:
+
+    def masked_statements(stmts):
+        """statements executed only when a mask is given"""
+        out = []
+        for k, st in enumerate(stmts):
+            if isinstance(st, ast.If):
+                t = ast.unparse(st.test)
+                if t == 'mask is not None':
+                    out += st.body
+                    if _always_returns_(st.body):            # `if mask is not None: ...; return` -> the rest is the unmasked path
+                        return out
+                    continue
+                if t == 'mask is None':
+                    out += st.orelse
+                    if _always_returns_(st.body):            # early return of the unmasked case: the rest is the masked path
+                        return out + [x for x in stmts[k + 1:] if not isinstance(x, ast.Return)]
+                    continue
+        return out
+
+    for st in masked_statements(fn.body):
+        if True:
+            if True:
                 u = ast.unparse(st)
                 if isinstance(st, ast.Assign) and isinstance(st.value, ast.Subscript) and ast.unparse(st.value.slice) == 'mask' \
                         and ast.unparse(st.targets[0]) == ast.unparse(st.value.value):
@@ -787,6 +830,8 @@ def _masked_branch_facts(fn, compressed, scattered):
                     pass                        # a local name for an arithmetic expression / another local
                 elif isinstance(st, ast.If) and 'isinstance(yhat, numbers.Number)' in ast.unparse(st.test):
                     seen_compress.add('yhat')
+                elif isinstance(st, ast.Expr) and isinstance(st.value, ast.Constant):
+                    pass
                 else:
                     unknown = True
     if unknown:
@@ -799,7 +844,7 @@ def cost_items(g, co):
 
     def mse():
         fn = get_def(co, 'mean_square_error')
-        t = VecTr({'M': ('v', '(M i)'), 'D': ('v', '(D i)')}, static={'mask is not None': False})
+        t = VecTr({'M': ('v', '(M i)'), 'D': ('v', '(D i)')}, static={'mask is not None': False, 'mask is None': True})
         cost, grad = t.run(fn.body)
         if cost[0] != 's' or grad[0] != 'v':
             raise Untranslatable('mean_square_error: kinds of the returned values')
@@ -813,7 +858,7 @@ def cost_items(g, co):
 
     def bgie():
         fn = get_def(co, 'bias_and_gain_invariant_error')
-        t = VecTr({'I': ('v', '(I i)'), 'D': ('v', '(D i)')}, static={'mask is not None': False})
+        t = VecTr({'I': ('v', '(I i)'), 'D': ('v', '(D i)')}, static={'mask is not None': False, 'mask is None': True})
         cost, grad = t.run(fn.body)
         if cost[0] != 's' or grad[0] != 'v':
             raise Untranslatable('bias_and_gain_invariant_error: kinds of the returned values')
@@ -828,7 +873,7 @@ def cost_items(g, co):
 
     def nll():
         fn = get_def(co, 'negative_loglikelihood')
-        t = VecTr({'y': ('v', '(y i)'), 'yhat': ('v', '(yhat i)')}, static={'mask is not None': False},
+        t = VecTr({'y': ('v', '(y i)'), 'yhat': ('v', '(yhat i)')}, static={'mask is not None': False, 'mask is None': True},
                   funcs={'np.log': lambda a: (a[0][0], f'(lg {a[0][1]})')})
         cost, grad = t.run(fn.body)
         if cost[0] != 's' or grad[0] != 'v':
@@ -907,17 +952,40 @@ def activation_items(g, ac):
         t = VecTr({'protograd': ('v', '(g i)'), 'self.tau': ('s', 'tau')},
                   funcs={'self.smax.backprop': lambda a: ('v', f'(softmaxBack n s (fun i => {a[0][1]}) i)')})
         (r,) = t.run(fn.body)
-        fsrc = canon_src(get_def(ac, 'GumbelSoftmax.forward'))
-        import re as _re
-        m_ = _re.search(r'(v\d+) = x \+ (v\d+)\n\s*(v\d+) = \1 / self\.tau\n\s*return self\.smax\.forward\(\3\)', fsrc)
-        fwd_ok = m_ is not None
-        if not fwd_ok:
-            raise Untranslatable('GumbelSoftmax.forward not in the recognised shape')
+        # forward, translated: what is handed to the inner softmax, as a function of the logits x, the noise and tau.
+        # Locals that do not depend on x and cannot be translated (the random draw, its shape, eps) are the noise `gam`.
+        ffn = get_def(ac, 'GumbelSoftmax.forward')
+        ft_ = VecTr({'x': ('v', '(x i)'), 'self.tau': ('s', 'tau')})
+        logits = None
+        for st in ffn.body:
+            if isinstance(st, ast.Expr) and isinstance(st.value, ast.Constant):
+                continue
+            if isinstance(st, ast.Assign) and len(st.targets) == 1 and isinstance(st.targets[0], ast.Name):
+                uses_x = any(isinstance(n_, ast.Name) and n_.id == 'x' for n_ in ast.walk(st.value)) or \
+                    any(isinstance(n_, ast.Name) and ft_.env.get(n_.id, ('?', ''))[0] == 'v' and 'x i' in ft_.env[n_.id][1]
+                        for n_ in ast.walk(st.value))
+                try:
+                    ft_.bind_name(st.targets[0].id, ft_.ev(st.value))
+                except Untranslatable:
+                    if uses_x and ast.unparse(st.value) != 'x.shape':
+                        raise
+                    # independent of the logits (the random draw, its shape, eps, ...): part of the frozen noise
+                    ft_.env[st.targets[0].id] = ('v', '(gam i)')
+                continue
+            if isinstance(st, ast.Return):
+                c = st.value
+                if not (isinstance(c, ast.Call) and ast.unparse(c.func) == 'self.smax.forward' and len(c.args) == 1):
+                    raise Untranslatable('GumbelSoftmax.forward does not return self.smax.forward(<logits>)')
+                logits = ft_.ev(c.args[0])
+                continue
+            raise Untranslatable(f'statement {ast.unparse(st)[:60]}')
+        if logits is None or logits[0] != 'v':
+            raise Untranslatable('no logits')
         return (f'def gumbelBack {PAR} (tau : K) (n : Nat) (s g : Nat → K) : Nat → K :=\n{t.prefix()}  fun i => {r[1]}\n'
-                f'def gumbelFwdIsSoftmaxOfLogitsPlusNoiseOverTau : Bool := {"true" if fwd_ok else "false"}\n')
+                f'def gumbelLogits {PAR} (tau : K) (x gam : Nat → K) : Nat → K :=\n{ft_.prefix()}  fun i => {logits[1]}\n')
     g.item('GumbelSoftmax', 'prysm/x/optym/activation.py:GumbelSoftmax', lambda: get_def(ac, 'GumbelSoftmax'), gumbel,
            f'def gumbelBack {PAR} (tau : K) (n : Nat) (s g : Nat → K) : Nat → K := {M}.gumbelBack tau n s g\n'
-           'def gumbelFwdIsSoftmaxOfLogitsPlusNoiseOverTau : Bool := true\n')
+           f'def gumbelLogits {PAR} (tau : K) (x gam : Nat → K) : Nat → K := fun i => (x i + gam i) / tau\n')
 
     def encoder():
         fn = get_def(ac, 'DiscreteEncoder.backprop')
@@ -927,20 +995,26 @@ def activation_items(g, ac):
         # the upstream gradient has one entry per variable; it must be expanded along a NEW LAST axis
         gsubs = [sl for base, sl in t.subscripts if base == 'grad']
         last = gsubs == ['(..., None)'] or gsubs == ['..., None'] or gsubs == ['(..., np.newaxis)'] or gsubs == ['..., np.newaxis']
-        lsubs = [sl for base, sl in t.subscripts if base == 'levels']
-        fsrc = canon_src(get_def(ac, 'DiscreteEncoder.forward'))
-        fwd_ok = all(k in fsrc for k in ('v0 = self.levels', 'v1 = v0[None, :]', 'v2 = self.est.forward(x)', 'v3 = v2 * v1',
-                                         'return v3.sum(axis=-1)'))
+        lsubs = [sl for base, sl in t.subscripts if base in ('levels', 'self.levels')]
         second = gsubs in (['(:, None)'], [':, None'], ['(:, np.newaxis)'], [':, np.newaxis'])
-        if not (fwd_ok and (last or second) and lsubs in (['(None, :)'], ['None, :'])):
-            raise Untranslatable('DiscreteEncoder not in the recognised shape')
+        if not ((last or second) and lsubs in (['(None, :)'], ['None, :'])):
+            raise Untranslatable('DiscreteEncoder.backprop not in the recognised shape')
+        # forward, translated: levels-weighted sum of the estimator's output over the last axis
+        ffn = get_def(ac, 'DiscreteEncoder.forward')
+        tf_ = VecTr({'self.levels': ('v', '(levels i)')}, funcs={'self.est.forward': lambda a: ('v', '(s i)')})
+        tf_.env['x'] = ('v', '(x i)')
+        (rf_,) = tf_.run(ffn.body)
+        fl = [sl for base, sl in tf_.subscripts if base in ('levels', 'self.levels')]
+        if rf_[0] != 's' or fl not in (['(None, :)'], ['None, :']):
+            raise Untranslatable('DiscreteEncoder.forward not in the recognised shape')
         return (f'def encoderBack {PAR} (estBack : (Nat → K) → Nat → K) (levels : Nat → K) (g : K) : Nat → K :=\n'
                 f'{t.prefix()}  fun i => {r[1]}\n'
-                f'def encoderBackExpandsLastAxis : Bool := {"true" if last else "false"}\n'
-                f'def encoderFwdContractsLastAxis : Bool := true\n')
+                f'def encoderFwd {PAR} (n : Nat) (levels s : Nat → K) : K :=\n{tf_.prefix()}  {rf_[1]}\n'
+                f'def encoderBackExpandsLastAxis : Bool := {"true" if last else "false"}\n')
     g.item('DiscreteEncoder', 'prysm/x/optym/activation.py:DiscreteEncoder', lambda: get_def(ac, 'DiscreteEncoder'), encoder,
            f'def encoderBack {PAR} (estBack : (Nat → K) → Nat → K) (levels : Nat → K) (g : K) : Nat → K := {M}.encoderBack estBack levels g\n'
-           'def encoderBackExpandsLastAxis : Bool := true\ndef encoderFwdContractsLastAxis : Bool := true\n')
+           f'def encoderFwd {PAR} (n : Nat) (levels s : Nat → K) : K := {M}.encoderFwd n levels s\n'
+           'def encoderBackExpandsLastAxis : Bool := true\n')
 
 
 # ------------------------------------------------------------------------------------------------
@@ -1263,25 +1337,61 @@ class MatTr:
             return (f'({M}.matmul {ca} {a} {b})', (ra, cb))
         raise Untranslatable(f'matrix expression {key[:60]}')
 
-    def run(self, fn, skip=()):
-        """straight-line body: local assignments of matrix expressions; returns the value of the returned name"""
+    def run(self, fn, skip=(), methods=None, alias=None, depth=0):
+        """straight-line body: local assignments of matrix expressions; returns the value of the returned expression.
+        Calls to straight-line helper methods of the same class (`self.helper(a, b)`) are inlined symbolically:
+        parameters bound to matrices carry their value, other parameters (e.g. the cache key) are aliases of the
+        caller's expression."""
+        alias = dict(alias or {})
+        res = lambda e: alias.get(ast.unparse(e), ast.unparse(e))
+
+        def helper_call(v):
+            if isinstance(v, ast.Call) and isinstance(v.func, ast.Attribute) and isinstance(v.func.value, ast.Name) \
+                    and v.func.value.id == 'self' and methods and v.func.attr in methods and depth < 3 \
+                    and v.func.attr not in ('_setup_bases', '_key'):
+                h = methods[v.func.attr]
+                params = [a.arg for a in h.args.args[1:]]
+                args = list(v.args) + [None] * (len(params) - len(v.args))
+                for kw in v.keywords:
+                    if kw.arg in params:
+                        args[params.index(kw.arg)] = kw.value
+                if any(a is None for a in args):
+                    raise Untranslatable(f'call of helper {v.func.attr}: missing arguments')
+                env2, alias2 = {}, {}
+                for pn, a in zip(params, args):
+                    t = ast.unparse(a)
+                    if t in self.env:
+                        env2[pn] = self.env[t]
+                    else:
+                        alias2[pn] = alias.get(t, t)
+                return MatTr(env2).run(h, methods=methods, alias=alias2, depth=depth + 1)
+            return None
+
         for st in fn.body:
             if isinstance(st, ast.Expr) and isinstance(st.value, ast.Constant):
                 continue
-            if isinstance(st, ast.Expr) and isinstance(st.value, ast.Call) and ast.unparse(st.value.func) == 'self._setup_bases':
+            if isinstance(st, ast.Expr) and isinstance(st.value, ast.Call) and ast.unparse(st.value.func) == 'self._setup_bases' \
+                    and len(st.value.args) == 1 and res(st.value.args[0]) == 'key':
                 continue
             if isinstance(st, ast.Assign) and len(st.targets) == 1:
                 tgt = st.targets[0]
                 if isinstance(tgt, ast.Name) and tgt.id in skip:
                     continue
-                if isinstance(tgt, ast.Tuple) and ast.unparse(tgt) == '(Eout, Ein)' \
-                        and ast.unparse(st.value) == '(self.Eout[key], self.Ein[key])':
-                    continue            # the cached bases of `key`
+                if isinstance(tgt, ast.Tuple) and [ast.unparse(t_) for t_ in tgt.elts] == ['Eout', 'Ein'] \
+                        and isinstance(st.value, ast.Tuple) and len(st.value.elts) == 2 \
+                        and all(isinstance(v_, ast.Subscript) for v_ in st.value.elts) \
+                        and [ast.unparse(v_.value) for v_ in st.value.elts] == ['self.Eout', 'self.Ein'] \
+                        and all(res(v_.slice) == 'key' for v_ in st.value.elts):
+                    # the cached bases of `key` (in the executor's own method or in an inlined helper)
+                    self.env['Eout'], self.env['Ein'] = ('Eout', ('M', 'm')), ('Ein', ('n', 'N'))
+                    continue
                 if isinstance(tgt, ast.Name):
-                    self.env[tgt.id] = self.ev(st.value)
+                    hv = helper_call(st.value)
+                    self.env[tgt.id] = hv if hv is not None else self.ev(st.value)
                     continue
             if isinstance(st, ast.Return):
-                return self.ev(st.value)
+                hv = helper_call(st.value)
+                return hv if hv is not None else self.ev(st.value)
             raise Untranslatable(f'statement {ast.unparse(st)[:60]}')
         raise Untranslatable('no return')
 
@@ -1315,8 +1425,10 @@ def mdft_term_items(g, ft):
         def build(fwd=fwd, bwd=bwd, sparam=sparam):
             f = get_def(ft, f'MatrixDFTExecutor.{fwd}')
             b = get_def(ft, f'MatrixDFTExecutor.{bwd}')
-            tf, shp_f = MatTr({'Eout': ('Eout', ('M', 'm')), 'Ein': ('Ein', ('n', 'N')), 'ary': ('f', ('m', 'n'))}).run(f, skip=('key',))
-            tb, shp_b = MatTr({'Eout': ('Eout', ('M', 'm')), 'Ein': ('Ein', ('n', 'N')), 'fbar': ('y', ('M', 'N'))}).run(b, skip=('key',))
+            cls = get_def(ft, 'MatrixDFTExecutor')
+            methods = {n.name: n for n in cls.body if isinstance(n, ast.FunctionDef)}
+            tf, shp_f = MatTr({'ary': ('f', ('m', 'n'))}).run(f, skip=('key',), methods=methods)
+            tb, shp_b = MatTr({'fbar': ('y', ('M', 'N'))}).run(b, skip=('key',), methods=methods)
             if shp_f != ('M', 'N') or shp_b != ('m', 'n'):
                 raise Untranslatable(f'result extents {shp_f} / {shp_b}')
             base = {'Q': 'Q', 'shift': 'shift', 'True': 'true', 'False': 'false'}
